@@ -6,6 +6,7 @@
 //	answers   server-answer alphabet against the real strict client and in-process TLS/plain listeners                  answers_test.go
 //	pure      did:jwk / did:key: purity and every single mutation of the identifier                                       pure_test.go
 //	managed   managed DIDs on the assembled node: local histories x resolution metadata, zero outbound requests          managed_test.go
+//	ops       (own part, TestVerifC18Ops) operation histories on managed DIDs x every resolver entry point x metadata        ops_test.go
 //
 // model.go holds the reference predicates. VERIF_C18_ONLY=grammar,… restricts the sections (debugging).
 package c18
@@ -41,7 +42,8 @@ func TestVerifC18(t *testing.T) {
 	theLab()
 	r.Rule("(grammar) did:web identifiers = host token x port token x 0..3 path-segment tokens (every combination; the deepest level for the representative hosts in the quick tier) " +
 		"through ParseDIDURL, DIDToURL, URLToDID and Resolver.Resolve with a recording HTTP doer; a case = one distinct DID string; judged: scheme, user-info, host equality, " +
-		"IP literal, query/fragment, path segments of DIDToURL's URL and of the request actually made, document id, round-trip law on the stated domain. " +
+		"IP literal, query/fragment, path segments of DIDToURL's URL and of the request actually made, document id, round-trip law on the stated domain; " +
+		"the other direction: https URLs of domain hosts x boundary ports x node/tenant paths through URLToDID and back (origin encoded exactly, canonical URLs come back). " +
 		"(answers) id-variant x content-type, status x content-type, body shapes with a recording doer; 3xx codes x redirect targets {same host other path, other host, IP, http same/other host, two hops} " +
 		"with the real strict client against in-process TLS/plain listeners, strict on and off, with and without port. " +
 		"(pure) did:jwk / did:key base identifiers of every supported key type x every single string mutation at every position (delete, duplicate, next character, swap, truncate, foreign characters, " +
@@ -74,9 +76,14 @@ func TestVerifC18(t *testing.T) {
 			sectionManaged(t, r)
 		case "answers":
 			sectionAnswers(t, r)
+		case "ops": // part "ops" (ops_test.go)
 		default:
 			var c gramCase
 			r.ReplayCase(&c)
+			if c.Classes == "url-direction" {
+				sectionURLDirection(r)
+				break
+			}
 			var st gramStats
 			runGramCase(r, c, &st)
 		}
